@@ -44,7 +44,7 @@ MergeFold(objs, t, i, acc) ==
                  [p \in Props |-> {IF x = U THEN prev ELSE x : x \in r[p], prev \in acc[p]}])
 EvalMerged(objs, t) == MergeFold(objs, t, 1, [p \in Props |-> {U}])
 
-RepRank(r) == IF r = -2 THEN INF ELSE IF r = -1 THEN 0 ELSE r
+RepRank(r) == IF r = -2 THEN INF ELSE IF r = -3 THEN HUGE ELSE IF r = -1 THEN 0 ELSE r
 SetMin(S) == CHOOSE x \in S : \A y \in S : x <= y
 SetMax(S) == CHOOSE x \in S : \A y \in S : y <= x
 MDelay(objs) == IF objs = <<>> THEN 0 ELSE SetMin({objs[i].cfg.tm.del : i \in 1..Len(objs)})
